@@ -22,7 +22,7 @@ Import ListNotations.
 Definition ident := nat.
 
 Inductive binop := Add | Sub | Mul | FloorDiv | Mod.
-Inductive cmpop := Lt | Le | Eq | Ne | Gt | Ge.
+Inductive cmpop := CLt | CLe | CEq | CNe | CGt | CGe.
 
 Inductive expr :=
 | EInt (z : Z) | EBool (b : bool) | ENone
@@ -81,11 +81,11 @@ Definition py_eq (a b : value) : bool :=
 
 Definition do_cmp (op : cmpop) (a b : value) : value + exc :=
   match op with
-  | Eq => inl (VBool (py_eq a b))
-  | Ne => inl (VBool (negb (py_eq a b)))
+  | CEq => inl (VBool (py_eq a b))
+  | CNe => inl (VBool (negb (py_eq a b)))
   | _ => match as_int a, as_int b with
          | Some x, Some y =>
-             inl (VBool (match op with Lt => Z.ltb x y | Le => Z.leb x y | Gt => Z.ltb y x
+             inl (VBool (match op with CLt => Z.ltb x y | CLe => Z.leb x y | CGt => Z.ltb y x
                                   | _ => Z.leb y x end))
          | _, _ => inr TypeError
          end
@@ -169,8 +169,8 @@ Fixpoint nonlocals_s (s : stmt) : list ident :=
 
 (* a name is local to the innermost function that binds it unless declared global/nonlocal *)
 Definition fn_locals (ps : list ident) (body : list stmt) : list ident :=
-  filter (fun x => negb (mem x (flat_map globals_s body)) && negb (mem x (flat_map nonlocals_s body)))
-         (ps ++ flat_map binds_s body).
+  ps ++ filter (fun x => negb (mem x (flat_map globals_s body)) && negb (mem x (flat_map nonlocals_s body)))
+               (flat_map binds_s body).
 
 Definition mk_info_raw (ps : list ident) (body : list stmt) (r : list (bool * ident)) : scope_info :=
   {| si_locals := fn_locals ps body; si_globals := flat_map globals_s body; si_refs := r |}.
@@ -202,8 +202,8 @@ Fixpoint has_owner (ctx : sctx) (x : ident) : bool :=
   end.
 Inductive kind := KLocal | KFree | KGlobal.
 Definition classify (i : scope_info) (ctx : sctx) (x : ident) : kind :=
-  if mem x (si_globals i) then KGlobal
-  else if mem x (si_locals i) then KLocal
+  if mem x (si_locals i) then KLocal            (* parameters, and bound names not declared global/nonlocal *)
+  else if mem x (si_globals i) then KGlobal
   else if has_owner ctx x then KFree else KGlobal.
 
 (* ---------- the interpreter skeleton ---------- *)
@@ -414,6 +414,10 @@ Arguments f_info {X}. Arguments f_ctx {X}. Arguments f_fast {X}. Arguments f_x {
 Arguments fn_ps {C}. Arguments fn_body {C}. Arguments fn_info {C}. Arguments fn_ctx {C}. Arguments fn_cap {C}.
 Arguments g_glob {H C}. Arguments g_heap {H C}. Arguments g_funs {H C}. Arguments g_next {H C}.
 Arguments g_trace {H C}.
+Arguments set_heap {H C}. Arguments set_glob {H C}. Arguments set_fast {X}. Arguments add_trace {H C}.
+Arguments load {X H C}. Arguments store {X H C}. Arguments delete {X H C}. Arguments store_r {X H C}.
+Arguments mkfun {X H C}. Arguments bind_params {X H C}. Arguments eval {X H C}. Arguments evals {X H C}.
+Arguments call {X H C}. Arguments exec {X H C}. Arguments block {X H C}.
 
 (* observable outcome of a whole program: module body, then the value of [main] *)
 Inductive outcome :=
@@ -426,8 +430,8 @@ Definition run_gen {X H C : Type} (o : ops X H C) (x0 : X) (h0 : H) (n : nat)
            (prog : list stmt) (main : expr) : outcome :=
   let fr0 := {| f_info := module_info (prog ++ [SExpr main]); f_ctx := []; f_fast := []; f_x := x0 |} in
   let st0 := {| g_glob := []; g_heap := h0; g_funs := []; g_next := 1; g_trace := [] |} in
-  match block X H C o n fr0 st0 prog with
-  | Ok q st => match eval X H C o n (fst q) st main with
+  match block o n fr0 st0 prog with
+  | Ok q st => match eval o n (fst q) st main with
                | Ok v st' => Done v (rev (g_trace st'))
                | Exn e st' => Failed e (rev (g_trace st'))
                | OutOfFuel => NoFuel
@@ -462,13 +466,15 @@ Definition c_loc (fr : frame cX) (h : cellheap) (x : ident) : option loc :=
 
 (* MAKE_FUNCTION: the closure tuple holds the cells of the new function's free variables, taken
    from the defining frame (its own cell for a cell variable, its free-variable cell otherwise) *)
+Definition cap1 (fr : frame cX) (x : ident) : option nat :=
+  if mem x (si_locals (f_info fr))
+  then (if is_cell (f_info fr) x then Some (snd (f_x fr)) else None)
+  else assoc x (fst (f_x fr)).
 Fixpoint c_capture_list (fr : frame cX) (xs : list ident) : option cC :=
   match xs with
   | [] => Some []
   | x :: r =>
-      match (if mem x (si_locals (f_info fr))
-             then (if is_cell (f_info fr) x then Some (snd (f_x fr)) else None)
-             else assoc x (fst (f_x fr))), c_capture_list fr r with
+      match cap1 fr x, c_capture_list fr r with
       | Some m, Some l => Some ((x, m) :: l)
       | _, _ => None
       end
